@@ -139,6 +139,11 @@ static void addr_cb(const void* p, size_t len, const char* what, void* ud_) {
   if ((const uint8_t*)p >= ud->lo && (const uint8_t*)p < ud->hi) ud->hits++;
 }
 
+static void filled_cb(const cbor_item_t* it, void* ud) {
+  if (cbor_isa_array(it) && cbor_array_is_definite(it) && cbor_array_size(it) != cbor_array_allocated(it)) ++*(int*)ud;
+  if (cbor_isa_map(it) && cbor_map_is_definite(it) && cbor_map_size(it) != cbor_map_allocated(it)) ++*(int*)ud;
+}
+
 /* MEMERROR at `pos`: admissible if the allocator observed a refusal, or the head
  * ending at pos declares more members than any allocator within CAP could hold,
  * or the reference itself says the nesting limit is exceeded there. In every case
@@ -187,6 +192,8 @@ static void c0205_case(const uint8_t* src, size_t n) {
           vh_violation("node-not-solely-owned", "a node of the returned tree has reference count != 1: %s", (char*)pr.p);
           vb_free(&pr);
         }
+        { int partial = 0; ro_each_node(it, filled_cb, &partial);
+          if (partial) vh_violation("definite-container-not-filled", "%d definite container(s) of the returned tree hold fewer members than they were allocated for", partial); }
         struct addr_ud au = {in, in + n, 0, 0};
         walk_blocks(it, addr_cb, &au);
         if (au.hits) vh_violation("tree-refers-to-input", "%d pointer(s) in the returned tree point into the caller's input buffer", au.hits);
@@ -461,13 +468,14 @@ static void stage_ctx(void) {
     if ((int)(ib % (unsigned)O.nshards) != O.shard) continue;
     unsigned mt = ib >> 5, ai = ib & 31;
     size_t argn = ai < 24 ? 0 : ai == 24 ? 1 : ai == 25 ? 2 : ai == 26 ? 4 : ai == 27 ? 8 : 0;
-    uint64_t nvals = argn == 0 ? 1 : argn == 1 ? 256 : (uint64_t)gen_nboundaries + 8;
+    uint64_t nvals = argn == 0 ? 1 : argn == 1 ? 256 : (uint64_t)gen_nboundaries + 8 + (argn >= 4 ? 3 * 8 * argn : 0);
     for (uint64_t vi = 0; vi < nvals; vi++) {
       uint64_t arg;
       if (argn == 0) arg = ai;
       else if (argn == 1) arg = vi;
       else if (vi < (uint64_t)gen_nboundaries) arg = gen_boundaries[vi];
-      else arg = (0x0102030405060708ull >> (8 * (vi - (uint64_t)gen_nboundaries))) | (vi << 60);
+      else if (vi < (uint64_t)gen_nboundaries + 8) arg = (0x0102030405060708ull >> (8 * (vi - (uint64_t)gen_nboundaries))) | (vi << 60);
+      else { uint64_t j = vi - (uint64_t)gen_nboundaries - 8; arg = ((uint64_t)1 << (j / 3)) + (j % 3) - 1; } /* every 2^k and 2^k +- 1 */
       if (argn < 8 && argn > 0) arg &= (((uint64_t)1 << (8 * argn)) - 1);
       for (size_t cx = 0; cx < sizeof ctxs / sizeof ctxs[0]; cx++) {
         uint8_t *pre, *suf;
